@@ -127,16 +127,31 @@ func (c *cluster) check(n, before *node, eff *effects, e Event) {
 		} else if st.Commit < before.hs.Commit {
 			c.fail("CommitMonotonic", "node %d: restarted with commit index %d, persisted before the crash: %d", n.id, st.Commit, before.hs.Commit)
 		}
-		if st.Applied != n.appliedIdx {
+		switch {
+		case !n.held && st.Applied != n.appliedIdx:
 			c.fail("AppliedIndexAgreement", "node %d: the library believes index %d is applied, the application has applied %d", n.id, st.Applied, n.appliedIdx)
+		case n.held && !(st.Applied == n.appliedIdx || (n.heldSnapIdx > 0 && n.appliedIdx == n.heldSnapIdx && st.Applied < n.appliedIdx)):
+			// while a Ready is held the library's cursor stays where the last Advance put it;
+			// the application may be ahead of it by exactly the snapshot of the held Ready
+			// (installed when the Ready was persisted)
+			c.fail("AppliedIndexAgreement", "node %d (holding a Ready): the library believes index %d is applied, the application has applied %d", n.id, st.Applied, n.appliedIdx)
 		}
-		// volatile state must agree with what was persisted (Ready handling is complete)
-		if st.Term != hs.Term || st.Vote != hs.Vote || st.Commit != hs.Commit {
+		if n.held {
+			// the held page is what the library handed out and the application has not applied yet
+			if n.heldLo != n.appliedIdx+1 || n.heldHi < n.heldLo || n.heldHi > hs.Commit {
+				c.fail("HeldPageBounds", "node %d holds committed page %d..%d with applied index %d and persisted commit %d", n.id, n.heldLo, n.heldHi, n.appliedIdx, hs.Commit)
+			}
+			// in-memory term / commit only move forward from what was persisted with the held Ready
+			if st.Term < hs.Term || st.Commit < hs.Commit {
+				c.fail("HardStatePersisted", "node %d (holding a Ready): in-memory (t%d,c%d) is behind the persisted (t%d,c%d)", n.id, st.Term, st.Commit, hs.Term, hs.Commit)
+			}
+		} else if st.Term != hs.Term || st.Vote != hs.Vote || st.Commit != hs.Commit {
+			// volatile state must agree with what was persisted (Ready handling is complete)
 			c.fail("HardStatePersisted", "node %d: in-memory (t%d,v%d,c%d) differs from persisted (t%d,v%d,c%d) after a complete Ready cycle", n.id, st.Term, st.Vote, st.Commit, hs.Term, hs.Vote, hs.Commit)
 		}
 		// --- bounds
-		if st.Commit > n.lastIndex() {
-			c.fail("LogBounds", "node %d: commit %d beyond last index %d", n.id, st.Commit, n.lastIndex())
+		if st.Commit > n.memLastIndex() {
+			c.fail("LogBounds", "node %d: commit %d beyond last index %d", n.id, st.Commit, n.memLastIndex())
 		}
 		if st.Applied > st.Commit {
 			c.fail("LogBounds", "node %d: applied %d beyond commit %d", n.id, st.Applied, st.Commit)
@@ -239,12 +254,14 @@ func (c *cluster) check(n, before *node, eff *effects, e Event) {
 					continue
 				}
 				idx := uint64(i)
-				if idx <= n.snapIdx {
+				if idx <= n.snapIdx || idx <= n.in.snapIdx {
 					continue // inside the node's snapshot (boundary term checked above)
 				}
-				en, ok := n.entryAt(idx)
+				// the log as the RawNode sees it: a node that holds a Ready (apply lag) may
+				// win an election with entries it has accepted but not yet handed out
+				en, ok := n.memEntryAt(idx)
 				if !ok {
-					c.fail("LeaderCompleteness", "node %d became leader of term %d without entry %d (t%d,%q) committed in term %d; its log ends at %d", n.id, t, idx, l.term, l.data, l.cterm, n.lastIndex())
+					c.fail("LeaderCompleteness", "node %d became leader of term %d without entry %d (t%d,%q) committed in term %d; its log ends at %d", n.id, t, idx, l.term, l.data, l.cterm, n.memLastIndex())
 					break
 				}
 				if en.Term != l.term || en.Type != l.typ || !bytes.Equal(en.Data, l.data) {
@@ -329,7 +346,7 @@ func (c *cluster) logMatching(a, b *node) {
 // expander.complete), and only the resulting genuine violation is reported.
 // Only used for fixed memberships (majority of the initial members).
 func (c *cluster) electableWithoutCommitted() (uint64, uint64) {
-	if c.cfg.Joiner {
+	if c.cfg.joiners() > 0 || c.bud.Lags > 0 {
 		return 0, 0
 	}
 	type last struct{ term, idx uint64 }
